@@ -1,10 +1,10 @@
 //! C07: compilation is deterministic.
 //!
-//! request : C07.repeat \t <dx|vk|vkba|msl> \t <all|nopipeline> \t <gen:<seed> | clash:<seed> | share:<seed> | inline:<seed> | disk:<root>|<entry>
+//! request : C07.repeat \t <dx|vk|vkba|msl> \t <all|nopipeline> \t <gen:<seed> | clash:<seed> | share:<seed> | inline:<seed> | cycle:<seed> | disk:<root>|<entry>
 //!                                                                  | diag:<family>:<seed> | src:<hex of the source>>
 //! observe : digest of sources + stages + metadata + pipeline state, or of the fully rendered diagnostic
 //!           (message, file, line, column, source excerpt, notes) followed by `|<stage>/<error variant>`
-//! oracle  : the same input compiled 5x (accepted programs) / 8x (the diagnostics streams) in this process and
+//! oracle  : the same input compiled 5x (accepted programs) / 8x (the diagnostics streams and `cycle:`) in this process and
 //!           once in each of 3 fresh processes (different std RandomState seeds for every HashMap/HashSet
 //!           instance) gives byte-identical results.
 use crate::compile_util::*;
@@ -13,6 +13,8 @@ use crate::util::*;
 
 #[path = "c07_diag.rs"]
 mod diag;
+#[path = "c07_cycle.rs"]
+mod cycle;
 
 /// One input of the property: files on disk or in memory, and whether the layout check is requested
 struct Input {
@@ -50,6 +52,9 @@ fn source_of(id: &str) -> Option<Input> {
     } else if let Some(seed) = id.strip_prefix("inline:") {
         let seed: u64 = seed.parse().ok()?;
         Some(mem(inline_program(&mut Rng::new(seed))))
+    } else if let Some(seed) = id.strip_prefix("cycle:") {
+        let seed: u64 = seed.parse().ok()?;
+        Some(mem(cycle::cycle_program(&mut Rng::new(seed)).0))
     } else if let Some(seed) = id.strip_prefix("share:") {
         let seed: u64 = seed.parse().ok()?;
         Some(mem(share_program(&mut Rng::new(seed))))
@@ -357,14 +362,14 @@ fn unescape(s: &str) -> String {
 /// the text of a generated rejected program, for the failure report
 fn program_text(id: &str) -> String {
     let id = id.strip_prefix("defs:").and_then(|r| r.split_once('|')).map(|r| r.1).unwrap_or(id);
-    if !is_diag_stream(id) && !id.starts_with("resv:") {
+    if !is_diag_stream(id) && !id.starts_with("resv:") && !id.starts_with("cycle:") {
         return String::new();
     }
     match source_of(id) {
         Some(input) => {
             let mut t = String::from("; program:");
             for (n, f) in &input.files {
-                t.push_str(&format!(" [{}] <<{}>>", n, clip(f, 1500)));
+                t.push_str(&format!(" [{}] <<{}>>", n, clip(f, if id.starts_with("cycle:") { 6000 } else { 1500 })));
             }
             t
         }
@@ -667,6 +672,11 @@ fn child(lines: &[String]) {
     }
 }
 
+/// everything `compile` returned for an accepted program, as text (for the first-difference report)
+fn outcome_text(ps: &[PipeOut]) -> String {
+    ps.iter().map(|p| format!("{}\nstages: {:?}\nmeta: {}\nstate: {}", p.text(), p.stages, p.metadata, p.state)).collect::<Vec<_>>().join("\n-- next pipeline --\n")
+}
+
 fn run_requests(all_lines: &[String], out: &mut Out, hist: &mut Hist) {
     let repeat_lines: Vec<String> = all_lines.iter().filter(|l| !l.starts_with("C07.history\t")).cloned().collect();
     if !repeat_lines.is_empty() {
@@ -703,7 +713,7 @@ fn run_repeat_requests(lines: &[String], out: &mut Out, hist: &mut Hist) {
         let d0 = a.digest();
         // a panic is a C08 matter; for C07 it only has to be the same panic every time
         let mut fail = None;
-        let repeats = if is_diag_stream(&id) { 8 } else { 5 };
+        let repeats = if is_diag_stream(&id) || id.starts_with("cycle:") { 8 } else { 5 };
         for k in 1..repeats {
             let b = compile_input(&input, t, &m);
             let d = b.digest();
@@ -714,6 +724,14 @@ fn run_repeat_requests(lines: &[String], out: &mut Out, hist: &mut Hist) {
                         k,
                         show(&b),
                         show(&a),
+                        program_text(&id)
+                    ),
+                    (CompileOutcome::Ok(pa), CompileOutcome::Ok(pb)) => format!(
+                        "run {} in the same process differs: {} vs first run {}; first difference: {}{}",
+                        k,
+                        d,
+                        d0,
+                        first_difference(&outcome_text(pb), &outcome_text(pa)).replace("(after the history)", "(this run)").replace("(alone)", "(first run)"),
                         program_text(&id)
                     ),
                     _ => format!("run {} in the same process differs: {} vs {}", k, d, d0),
@@ -730,6 +748,8 @@ fn run_repeat_requests(lines: &[String], out: &mut Out, hist: &mut Hist) {
             "source=name-shared-in-scope"
         } else if id.starts_with("inline:") {
             "source=inline-descriptor-groups"
+        } else if id.starts_with("cycle:") {
+            "source=call-cycles"
         } else if id.starts_with("diag:") {
             "source=diagnostics-generator"
         } else if id.starts_with("src:") {
@@ -868,6 +888,23 @@ pub fn run(args: &Args, out: &mut Out) {
         let seed = rng.next() >> 16;
         for t in [Tgt::VkBa, Tgt::Vk] {
             lines.push(format!("C07.repeat\t{}\tall\tinline:{}", t.name(), seed));
+        }
+    }
+    // call cycles (mutual / self recursion through forward declarations): the usage fixpoint on cyclic tables,
+    // seen on Metal as implicit parameter lists and is_used; the HLSL targets are the control
+    let ncycle = args.n.map(|n| (n / 5).max(2)).unwrap_or(if args.thorough() { 300 } else { 24 });
+    for _ in 0..ncycle {
+        let seed = rng.next() >> 16;
+        let (_, shape) = cycle::cycle_program(&mut Rng::new(seed));
+        hist.add(&format!("cycles-per-program={}", shape.cycles));
+        hist.add(&format!("longest-cycle={}", shape.longest));
+        hist.add(&format!("self-recursive={}", shape.self_recursive.min(3)));
+        hist.add(&format!("calls-between-cycles={}", shape.cross_calls.min(3)));
+        hist.add(&format!("globals-initialised-by-a-call={}", shape.init_calls));
+        hist.add(&format!("cycles-in-namespaces={}", shape.namespaces.min(3)));
+        hist.add(if shape.deep_chain == 0 { "deep-helper-chain=none" } else if shape.deep_chain < 16 { "deep-helper-chain=9-15" } else { "deep-helper-chain=16-24" });
+        for t in ALL_TARGETS {
+            lines.push(format!("C07.repeat\t{}\tall\tcycle:{}", t.name(), seed));
         }
     }
     // the repository's own rejected inputs (first argument of check_fail / check_fail_message in the typer tests)
